@@ -121,6 +121,7 @@ class Ctx:
         self.seq = 0
         self.cache = {}
         self.rt_seen = set()
+        self.c19_seen = set()
         self.patched = bool(self.counting and params.get("patch_limits"))
         # worker processes are reused: always (re)set the two limits the counting module reads
         cbm.UINT32_T_MAX = params["cellmax"] if self.patched else 2**32 - 1
@@ -237,7 +238,10 @@ class Ctx:
             return d
 
         if t.focus == "C19":
-            self._c19(t, objs, hf, rp)
+            k19 = hash(repr((table, hist)))
+            if k19 not in self.c19_seen:  # once per source state (the edges of one source state are consecutive)
+                self.c19_seen.add(k19)
+                self._c19(t, objs, hf, rp)
         raised = None
         ret = None
         try:
@@ -557,7 +561,7 @@ def run(focus, tier, seed):
     for p in profiles(tier, seed, focus in ("C05", "C14", "C19")):
         if focus in FOCUS_FILTER and not FOCUS_FILTER[focus](p):
             continue
-        if p.get("exhaustive"):
+        if p.get("exhaustive") or (tier == "quick" and focus in ("C05", "C14", "C19")):
             continue
         ps = dict(p, maxdepth=14, maxn=5, maxreloads=2)
         const = {k: v for k, v in ps.items() if k != "tables"}
